@@ -176,7 +176,10 @@ func writersBody(s *vsched.Sched, p Param) {
 	s.Begin()
 	s.Go("c-e1", func() { v, err := cli.Echo(context.Background(), 60); obs.Set("e1", "%d/%s", v, errClass(err)) })
 	s.Go("c-e2", func() { v, err := cli.Echo(context.Background(), 61); obs.Set("e2", "%d/%s", v, errClass(err)) })
-	s.Go("c-big", func() { v, err := cli.Big(context.Background(), size); obs.Set("big", "len%d/%s", len(v), errClass(err)) })
+	s.Go("c-big", func() {
+		v, err := cli.Big(context.Background(), size)
+		obs.Set("big", "len%d/%s", len(v), errClass(err))
+	})
 	s.Go("c-rev", func() { v, err := cli.Rev(context.Background(), 7); obs.Set("rev", "%d/%s", v, errClass(err)) })
 	s.Go("c-hold", func() { v, err := cli.Hold(holdCtx, 5); obs.Set("hold", "%d/%s", v, errClass(err)) })
 	s.Go("c-sub", func() {
